@@ -557,6 +557,8 @@ def multi_feature_case(rng, kind=None, n=None, n_feat=None, hostile=False, degen
     c.y = pd.Series(y, index=idx)
     c.meta["columns"] = metas
     c.config = carver_config(rng, "binary" if c.kind == "multiclass" else c.kind)
+    # cost of a fit ~ candidates x features x classes: keep multi-feature fits around a second
+    tame(c.config, limit=max(40, int(1500 / (max(1, n_feat) * (n_classes - 1 if c.kind == "multiclass" else 1)))))
     if with_dev is None:
         with_dev = rng.random() < 0.25
     if with_dev:
